@@ -677,6 +677,32 @@ func ruleLIT1(c *Ctx) {
 		if !valOK {
 			probs = append(probs, "the literal node's Value is not the conversion's first result")
 		}
+		// the conversion's verdict stands: its results are not written again
+		// (a second attempt with another conversion after a failure, a value
+		// patched up on the error path)
+		resObjs := map[types.Object]bool{}
+		ast.Inspect(cc, func(n ast.Node) bool {
+			if as, ok := n.(*ast.AssignStmt); ok && len(as.Rhs) == 1 && as.Rhs[0] == ast.Expr(call) {
+				for _, l := range as.Lhs {
+					if id, ok := l.(*ast.Ident); ok && id.Name != "_" {
+						resObjs[p.TypesInfo.ObjectOf(id)] = true
+					}
+				}
+			}
+			return true
+		})
+		ast.Inspect(cc, func(n ast.Node) bool {
+			as, ok := n.(*ast.AssignStmt)
+			if !ok || (len(as.Rhs) == 1 && as.Rhs[0] == ast.Expr(call)) {
+				return true
+			}
+			for _, l := range as.Lhs {
+				if id, ok := l.(*ast.Ident); ok && resObjs[p.TypesInfo.ObjectOf(id)] {
+					probs = append(probs, "the result "+id.Name+" of "+fn+" is overwritten ("+w.Src(as)+"): the literal no longer denotes what "+fn+" says it denotes (or its error is dropped)")
+				}
+			}
+			return true
+		})
 		c.check(len(probs) == 0, key, cc, fn+"(tokenLit, "+strings.Join(args, ", ")+")", strings.Join(probs, "; "))
 	}
 	checkConv("Int", "strconv.ParseInt", []string{"0", "64"}, true)
